@@ -4,6 +4,7 @@ use simrt::Tape;
 
 use crate::gen::{self, Profile};
 use crate::gen2;
+use crate::gen3;
 use crate::plan::*;
 use crate::run::RunResult;
 
@@ -37,6 +38,16 @@ pub fn generate(prop: &str, _run: u64, t: &mut Tape) -> Scenario {
             }
         }
         "C06" => gen2::gen_timed(t, true),
+        "C03" => gen3::gen_route(t),
+        "C07" => gen3::gen_agg(t),
+        "C08" => {
+            if _run % 5 == 4 {
+                gen3::gen_route(t)
+            } else {
+                gen3::gen_join(t)
+            }
+        }
+        "C09" => gen3::gen_fan(t),
         "C10" => gen2::gen_loopfam(t, gen2::LoopOpts { side: _run % 3 == 0, nested: true }),
         "C11" => gen2::gen_loopfam(t, gen2::LoopOpts { side: true, nested: false }),
         "C12" => gen2::gen_cwin(t),
